@@ -524,12 +524,12 @@ def main(ck: Check):
     parsed_ok_texts = []   # (text, real canonical result)
 
     num_re = re.compile(r"[+-]?(?:\d+\.?\d*|\.\d+)(?:[eE][+-]?\d+)?")
-    drop_re = re.compile(r"x[ \t]*(?:-\d+|\+?0+)(?![\d.eE])")
+    drop_re = re.compile(r"x[ \t]*(?:-\d+|\+?0+)(?![\d.]|[eE][+-]?\d)")
 
     def outside_model(text: str) -> bool:
         """the one case the model does not see (Model/Dsl.lean `interpAll`): a time literal that overflows to inf in
         an operation that a multiplier <= 0 then drops (the real transformer still raises ValueError for it)"""
-        if not drop_re.search(text):
+        if not drop_re.search(text) and not re.search(r"x[ \t]*[+-]?\d", text):
             return False
         for m in num_re.finditer(text):
             try:
